@@ -340,6 +340,11 @@ func runC12(r *Report, rng *rand.Rand, thorough bool) {
 				scenarios = append(scenarios, map[string]any{"id": id, "pkg": name, "req": map[string]any{"method": "GET", "target": "/" + c.Op},
 					"opts": opts(map[string]any{"strict_handler_error": true})})
 				metas[id] = meta{fw, c, nil, "handler-error"}
+				// a strict middleware hands back something that is no response object of the operation -> error path
+				id = fmt.Sprintf("%s/%s/foreign", name, c.Op)
+				scenarios = append(scenarios, map[string]any{"id": id, "pkg": name, "req": map[string]any{"method": "GET", "target": "/" + c.Op},
+					"opts": opts(map[string]any{"strict_foreign": true, "strict_middlewares": 1 + len(scenarios)%2})})
+				metas[id] = meta{fw, c, nil, "foreign-response"}
 			}
 		}
 	}
@@ -443,6 +448,11 @@ func runC12(r *Report, rng *rand.Rand, thorough bool) {
 		case "handler-error":
 			if handlers != 1 || res.Status < 400 {
 				r.Violate("handler_error_not_on_error_path/"+m.fw, fmt.Sprintf("%s: handler returned an error; status %d", id, res.Status), replay)
+			}
+		case "foreign-response":
+			r.Dist["response=foreign-type-from-strict-middleware"]++
+			if res.Status < 400 {
+				r.Violate("foreign_response_type_not_on_error_path/"+m.fw, fmt.Sprintf("%s: a strict middleware returned a value that is no response object of the operation; status %d, body %q", id, res.Status, trunc(res.RespBody, 80)), replay)
 			}
 		case "params":
 			var req map[string]json.RawMessage
